@@ -294,8 +294,9 @@ def r7_late_bound_constants(ctx, modules=None):
     ctx.ob("bionumpy/io", f"{n} methods of base format classes examined: overridable constants are late-bound", True, "", key="C05-R7|scan")
 
 
-from ..through_time import make_rule as _mk_tt
+from ..through_time import make_rule as _mk_tt, make_t2 as _mk_t2
 _through_time = _mk_tt("C05")
+_small_edits = _mk_t2("C05")
 
 def _mutable_defaults(ctx):
     from .c20 import r9_mutable_defaults
@@ -309,6 +310,7 @@ RULES = [
     ("C05-R5", r5_context_pairing),
     ("C05-R6", r6_index_forwarding),
     ("C05-T1", _through_time),
+    ("C05-T2", _small_edits),
     ("C05-R7", r7_late_bound_constants),
     ("C05-R8", _mutable_defaults),
 ]
